@@ -106,6 +106,7 @@ def _rules():
             lambda R, c, rid: shared.api_delegations(R, c, rid),
             lambda R, c, rid: shared.map_try_update(R, c, rid),
             lambda R, c, rid: shared.apply_delta_dispatch(R, c, rid),
+            lambda R, c, rid: shared.prelim_kinds(R, c, rid),
         ],
         "map-api": [
             lambda R, c, rid: shared.map_api(R, c, rid),
